@@ -67,8 +67,8 @@ def make_stream(kind, rng):
     """List of (frame bytes, expected-observation key)."""
     frames = []
 
-    def data(i, s, f, w, blen, session=0):
-        sysid = 0x10000 + i
+    def data(i, s, f, w, blen, session=0, sysid=None):
+        sysid = 0x10000 + i if sysid is None else sysid
         frames.append((link.hsms_frame(stype=0, system=sysid, session=session, stream=s, function=f, wbit=w,
                                        body=pattern(blen)), ("D", sysid, s, f, w, blen, session)))
 
@@ -87,6 +87,14 @@ def make_stream(kind, rng):
         data(4, 127, 255, False, 300, session=0xFFFF)
         lt(5)
         data(6, 0, 0, True, 3)
+    elif kind == "samehdr":
+        # a peer that numbers all its messages alike: neighbouring frames with equal headers (equal system bytes) are distinct
+        # messages -- different bodies, and the very same frame twice
+        data(1, 6, 11, False, 3, sysid=0x4242)
+        data(2, 6, 11, False, 7, sysid=0x4242)
+        data(3, 6, 11, False, 7, sysid=0x4242)
+        data(4, 1, 1, True, 0, sysid=0x4242)
+        data(5, 1, 1, True, 0, sysid=0x4242)
     elif kind.startswith("big:"):
         # one body around / above 1 MiB (the size of the sender's packets -- no limit for a message), followed by small frames
         data(1, 6, 11, True, int(kind[4:]))
@@ -187,13 +195,18 @@ def run_batch(job):
                 ep.link.take_raw()
                 # map observations to frame indices (0 = something that matches no sent frame)
                 idx = []
+                used = set()
                 for o in order:
-                    j = 0
+                    match = []
                     for n, (fb, key) in enumerate(frames, start=1):
                         if key[0] == "D" and o[0] == "D" and tuple(o[1:7]) == key[1:] and o[7] == fb[14:]:
-                            j = n
+                            match.append(n)
                         if key[0] == "L" and o[0] == "L" and o[1] == key[1]:
-                            j = n
+                            match.append(n)
+                    # equal frames are distinct messages: the k-th observation of such a frame stands for the k-th of them
+                    fresh = [n for n in match if n not in used]
+                    j = fresh[0] if fresh else (match[-1] if match else 0)
+                    used.add(j)
                     idx.append(j)
                 obs.append(idx)
             out.append({"id": tid, "lens": [len(f) for f, _ in frames], "segs": list(segs), "obs": obs, "kind": kind,
@@ -253,6 +266,11 @@ def run(ctx: Ctx):
                     add(kind, 0, ([a] if a else []) + [k, total - a - k])
     for i in range(300 if ctx.quick else 4000):
         add("random", rng.randrange(1 << 30), None)
+    total = sum(len(f) for f, _ in make_stream("samehdr", random.Random(0)))
+    add("samehdr", 0, [total])
+    add("samehdr", 0, [1] * total)
+    for _ in range(4 if ctx.quick else 40):
+        add("samehdr", rng.randrange(1 << 30), None)
     mib = 1024 * 1024
     for blen in ((mib - 10, mib - 9, mib + mib // 2) if ctx.quick else (mib - 11, mib - 10, mib - 9, mib, mib + mib // 2, 3 * mib, 16 * mib + 3)):
         total = sum(len(f) for f, _ in make_stream(f"big:{blen}", random.Random(0)))
